@@ -151,13 +151,16 @@ def pipeline(ctx, genmodule, suite, judgemodule, judgecfg, parts, unit, sample, 
             ctx.note("%s under zone %+d min: %d cases (%.0fs; %d not ok)" % (names, z, ctx.count_lines(ofz), time.time() - t0, len(vs)))
         # C18: the same histories once more on a statement that carries tz('<zone>'), with the bases 1..3 placed around
         # the hour that the zone's clocks repeat at the end of daylight saving time (harness/suite_c10.go)
-        for tz in tzs:
-            oft = ctx.path("obs_%s_tz.ndjson" % names)
+        for tzi, tz in enumerate(tzs):
+            stride = 1
+            if isinstance(tz, tuple):
+                tz, stride = tz[0], (tz[1] if ctx.quick else tz[2])
+            oft = ctx.path("obs_%s_tz%d.ndjson" % (names, tzi))
             t0 = time.time()
-            cft = ctx.path("cases_%s_tz.ndjson" % names)
+            cft = ctx.path("cases_%s_tz%d.ndjson" % (names, tzi))
             with open(cf, encoding="utf-8") as g, open(cft, "w", encoding="utf-8") as out:
                 for i, line in enumerate(g):
-                    if ctx.quick and i % 4 != ctx.seed % 4:      # quick: every fourth history (which ones depends on the seed)
+                    if i % stride != ctx.seed % stride:      # every stride-th history (which ones depends on the seed)
                         continue
                     c = json.loads(line)
                     if isinstance(c, str):
@@ -165,8 +168,8 @@ def pipeline(ctx, genmodule, suite, judgemodule, judgecfg, parts, unit, sample, 
                     c["tz"] = tz
                     out.write(json.dumps(c, ensure_ascii=False) + "\n")
             ctx.drive(suite, cft, oft)
-            vs = pjudge(ctx, judgemodule, judgecfg(batch[0][0]["group"]), oft, names + "_tz", parts=4 if ctx.quick else 8)
-            ctx.note("%s with tz('%s'), windows around the repeated hour: %d cases (%.0fs; %d not ok)" % (names, tz, ctx.count_lines(oft), time.time() - t0, len(vs)))
+            vs = pjudge(ctx, judgemodule, judgecfg(batch[0][0]["group"]), oft, names + "_tz%d" % tzi, parts=4 if ctx.quick else 8)
+            ctx.note("%s with tz('%s'), windows around the repeated hour / a UTC midnight: %d cases (%.0fs; %d not ok)" % (names, tz, ctx.count_lines(oft), time.time() - t0, len(vs)))
         if tzs:
             # C18: (a) the histories whose initial condition is `true` once more on a statement WITHOUT a WHERE clause,
             # (b) a share of all histories on a statement whose time column was renamed (`time AS ts` + RewriteTimeFields)
